@@ -80,10 +80,12 @@ func c20Grid(c *core.Ctx) {
 	}
 	c.Begin(map[string]interface{}{"model": "ClimateVariables", "elevation": elev, "temperature_from": -40 + float64(t0)*dT, "temperature_to": -40 + float64(t1-1)*dT, "dT": dT, "dRH": dH})
 	c.Class(fmt.Sprintf("elev%v/block%d", elev, bi))
-	var hums []float64
-	hums = append(hums, 0.01)
+	// very dry air first (the range is (0,100]), then the regular grid
+	hums := []float64{0.01, 0.05, 0.1, 0.25, 0.5, 0.75, 0.9, 1.0, 1.1, 1.5, 2, 3}
 	for h := dH; h <= 100+1e-9; h += dH {
-		hums = append(hums, math.Min(h, 100))
+		if h > 3 {
+			hums = append(hums, math.Min(h, 100))
+		}
 	}
 	// humidity axis per temperature
 	for ti := t0; ti < t1; ti++ {
